@@ -36,18 +36,25 @@ def statement(fn, tree_node_ids):
     from metapype.model.node import Node
     problems = []
     try:
-        fn(None)
+        VT.with_limit(lambda: fn(None))
         ff = "OK"
     except MetapypeRuleError as ex:
         ff = type(ex).__name__
-    except BaseException as ex:  # noqa
+    except VT.ValidationTimeout:
+        ff = "CRASH:did-not-terminate"
+        problems.append(("nontermination:fail-fast", "fail-fast validation did not terminate within 5 s"))
+    except Exception as ex:  # noqa
         ff = "CRASH:" + type(ex).__name__
         problems.append(("foreign-exception:" + type(ex).__name__, f"fail-fast validation raised {type(ex).__name__}: {ex!s:.200}"))
     errs = []
     raised = None
     try:
-        fn(errs)
-    except BaseException as ex:  # noqa
+        VT.with_limit(lambda: fn(errs))
+    except VT.ValidationTimeout as ex:
+        raised = ex
+        problems.append(("nontermination:collecting", "collecting validation did not terminate within 5 s"))
+        del errs[200:]
+    except Exception as ex:  # noqa
         raised = ex
         problems.append(("collect-raised:" + type(ex).__name__, f"collecting validation raised {type(ex).__name__}: {ex!s:.200}"))
     codes = []
@@ -138,6 +145,12 @@ def run(ctx):
         nodes = all_nodes(root)
         ids = {id(n) for n in nodes}
         ff, codes, problems = statement(lambda errs: validate.tree(root, errs), ids)
+        hung = any(k.startswith("nontermination") for k, _ in problems)
+        if VT.TIMEOUTS > 20:
+            ctx.note("more than 20 validations did not terminate; remaining trees skipped")
+            for key, what in problems:
+                ctx.fail("C04:" + key, what, {"kind": "impl-vs-statement", "call": "validate.tree", "tree": t, "edits": ops, "observed_ff": ff, "observed_codes": codes[:20]})
+            break
         surrogate = VT.has_lone_surrogate(t)
         d = VT.depth(t)
         max_depth = max(max_depth, d)
@@ -150,7 +163,7 @@ def run(ctx):
         for key, what in problems:
             ctx.fail("C04:" + key + (":lone-surrogate" if surrogate else ""), what,
                      {"kind": "impl-vs-statement", "call": "validate.tree", "tree": t, "edits": ops, "observed_ff": ff, "observed_codes": codes})
-        for n in rng.sample(nodes, min(1 if origin == "pair" else 3, len(nodes))):
+        for n in ([] if hung else rng.sample(nodes, min(1 if origin == "pair" else 3, len(nodes)))):
             ffn, codesn, problems_n = statement(lambda errs, n=n: validate.node(n, errs), ids)
             ctx.case()
             for key, what in problems_n:
@@ -160,7 +173,7 @@ def run(ctx):
                           "observed_ff": ffn, "observed_codes": codesn})
         Node.store.clear()
         # history: repeated validation of the same objects (second collecting call, non-empty list, in-place edits)
-        if (origin not in ("eml.xml", "pair", "wide") or rng.random() < (0.3 if origin == "eml.xml" else 0.04)):
+        if not hung and (origin not in ("eml.xml", "pair", "wide") or rng.random() < (0.3 if origin == "eml.xml" else 0.04)):
             call = rng.choice(["tree", "tree", "node"])
             for step, what, details in VT.history_problems(rng, t, call=call, pool=pool, n_edits=1 if VT.size(t) > 40 else 2):
                 ctx.fail("C04:history:" + call + ":" + step.split("/")[-1], what, dict(details, edits=ops))
@@ -173,7 +186,7 @@ def run(ctx):
             in_b = VT.size(t) <= 258 and ops[0] in ("wide:metadata", "wide:attributes", "wide:keywordSet", "wide:max-exceeded")
         else:
             in_b = VT.size(t) <= 40 and len(coq_cases) < n_coq and (origin != "subtree" or ops)
-        if in_b:
+        if in_b and not hung:
             coq_cases.append(RL.coq_tcase(t))
             coq_wants.append(RL.coq_outcome((ff, codes)))
             coq_meta.append({"tree": t, "edits": ops, "observed": [ff, codes]})
